@@ -341,4 +341,8 @@ R.add('L15.2', l152, lambda tier: [dict(first=list(a), second=list(b), maxsize=(
       expect=['fromJson(toJson(x)) reproduces x', 'the first class round-trips'],
       bounds='10 ordered pairs of annotation shapes; first class with a fixed 2-element value, second as in L15.1')
 
+for _lid in ['L15.1', 'L15.2']:
+    if _lid in R.lemmas:
+        R.lemmas[_lid].api = True
+
 get_harness = R.get_harness
